@@ -20,9 +20,9 @@ import (
 func init() {
 	fw.Register(&fw.Check{
 		ID:          "C15",
-		Rule:        "cases: for each of the five key types, payloads of 1 B..4 KiB (binary and JSON) signed with the library's signers via SignPayload and SignModel; oracle by construction: verify under the matching JWK must succeed and return the payload; under every other key (same and other types) must fail; every single-bit change of the decoded header, payload and signature (all bits for one JWS per key type, strided otherwise; segments re-encoded) must fail; wrong-length signatures, unsupported kty/crv and malformed compact splits must error. Signing is repeated until signatures with a leading zero byte in r or s were seen for every EC curve. distinct = (key type, payload class, tampering class, segment, bit-position bucket).",
+		Rule:        "cases: for each of the five key types, payloads of 1 B..4 KiB (binary and JSON) signed with the library's signers via SignPayload and SignModel; oracle by construction: verify under the matching JWK must succeed and return the payload; under every other key (same and other types, and the mirror point (x, p-y) tried before or after the matching key) must fail; a third of the EC keys are drawn until a coordinate has a leading zero byte; every single-bit change of the decoded header, payload and signature (all bits for one JWS per key type, strided otherwise; segments re-encoded) must fail; wrong-length signatures, unsupported kty/crv and malformed compact splits must error. Signing is repeated until signatures with a leading zero byte in r or s were seen for every EC curve. distinct = (key type, payload class, tampering class, segment, bit-position bucket).",
 		Assumptions: []string{"forgery resistance of Ed25519 / ECDSA (a random bit flip does not yield a valid signature)", "harness base64url codec"},
-		Require:     []string{"verify-ok", "signer-reuse", "other-key", "bit-flip-header", "bit-flip-payload", "bit-flip-signature", "malformed", "leading-zero-rs"},
+		Require:     []string{"verify-ok", "signer-reuse", "other-key", "bit-flip-header", "bit-flip-payload", "bit-flip-signature", "malformed", "leading-zero-rs", "mirror-key", "leading-zero-coordinate-keys"},
 		Workers:     func(string) int { return 15 },
 		Run:         runC15,
 	})
@@ -89,6 +89,13 @@ func tamperSegment(compact string, seg int, f func(b []byte) []byte) (string, bo
 func c15Case(c *fw.Case, typ string, allBits bool) {
 	r := c.Rng
 	k := gen.NewKey(r, typ)
+	if typ != gen.Ed25519 && c.Idx%3 == 1 {
+		// keys having a coordinate with a leading zero byte
+		if lz, ok := gen.NewKeyLeadingZero(r, typ, 400); ok {
+			k = lz
+			c.Count("leading-zero-coordinate-keys", 1)
+		}
+	}
 	jwk := toLibJWK(k.JWK())
 	payload, pclass := payloadFor(r)
 	if allBits {
@@ -112,7 +119,30 @@ func c15Case(c *fw.Case, typ string, allBits bool) {
 		c.Failf("sign-error", map[string]interface{}{"key_type": typ, "err": err.Error()}, "signing failed: %v", err)
 		return
 	}
-	c.Sig("ok", typ, pclass, kid != "", useModel)
+	// the mirror point (x, p-y) is another key sharing the x coordinate; it is tried before the matching key in half of
+	// the cases and after it in the others, so that nothing remembered from one verification can decide the next
+	mirror := k.Mirror()
+	mirrorFirst := r.Bool()
+	tryMirror := func(when string) {
+		if mirror == nil {
+			return
+		}
+		c.Count("other-key", 1)
+		c.Count("mirror-key", 1)
+		c.Evals(1)
+		c.Sig("mirror", typ, when)
+		if _, err := jwsutil.VerifyJWS(compact, toLibJWK(mirror.JWK())); err == nil {
+			c.Failf("verifies-under-mirror-key", map[string]interface{}{"jws": compact, "signer_jwk": k.JWK(), "other_jwk": mirror.JWK(), "order": when}, "JWS verifies under the mirror key (x, p-y), tried %s the matching key", when)
+		}
+	}
+	if mirrorFirst {
+		tryMirror("before")
+	}
+	lzc := false
+	if x, y := k.XY(); x[0] == 0 || (len(y) > 0 && y[0] == 0) {
+		lzc = true
+	}
+	c.Sig("ok", typ, pclass, kid != "", useModel, lzc)
 	c.Count("verify-ok", 1)
 	c.Evals(1)
 	parsed, err := jwsutil.VerifyJWS(compact, jwk)
@@ -141,6 +171,9 @@ func c15Case(c *fw.Case, typ string, allBits bool) {
 		}
 	}
 	// other keys
+	if !mirrorFirst {
+		tryMirror("after")
+	}
 	for _, ot := range gen.AllKeyTypes {
 		o := gen.NewKey(r, ot)
 		c.Count("other-key", 1)
